@@ -8,3 +8,140 @@ def calc_trim(m, meta):
     got = tuple(UrwidImageCanvas._ti_calc_trim(*a))
     exp = tuple(ST.spec_calc_trim(*a))
     return {"reproduced": got != exp, "input": a, "observed": got, "expected": exp}
+
+
+def _cells(segments):
+    """a content() row -> ([(glyph, fg, bg)] per column, colour in force at the end)"""
+    import re
+    sgr = re.compile(rb"\x1b\[([0-9;]*)m")
+    data = b"".join(t for *_, t in segments).replace(b"\0", b"")
+    fg = bg = None
+    out = []
+    i = 0
+    while i < len(data):
+        mm = sgr.match(data, i)
+        if mm:
+            p = mm.group(1)
+            if p in (b"", b"0"):
+                fg = bg = None
+            else:
+                nums = tuple(map(int, p.split(b";")))
+                if nums[0] == 38:
+                    fg = nums[2:]
+                elif nums[0] == 48:
+                    bg = nums[2:]
+            i = mm.end()
+            continue
+        ch = data[i:].decode("utf-8", "replace")[0]
+        n = len(ch.encode())
+        out.append((ch, None if ch == " " else fg, bg))     # the foreground is invisible on a blank
+        i += n
+    return out, (fg, bg)
+
+
+def content(m, meta, budget=4000):
+    """text images: every trim of small canvases against the crop of the untrimmed canvas (cell by cell, colours included)"""
+    import random
+    import tests  # noqa: F401  terminal stubs of the repository's own test package
+    from PIL import Image
+    from term_image import set_cell_ratio
+    from term_image.image import BlockImage
+    from term_image.widget import UrwidImage
+    set_cell_ratio(0.5)
+    rng = random.Random(5)
+    pal = [(0, 0, 0, 255), (255, 0, 0, 255), (0, 255, 0, 255), (9, 9, 200, 255), (7, 7, 7, 0)]
+    done = 0
+    for trial in range(60):
+        w, h = rng.randint(1, 6), rng.randint(1, 3) * 2
+        img = Image.new("RGBA", (w, h))
+        px = []
+        for y in range(h):
+            c = rng.choice(pal)
+            for x in range(w):
+                if rng.random() < 0.35:
+                    c = rng.choice(pal)
+                px.append(c)
+        img.putdata(px)
+        image = BlockImage(img)
+        for fmt in ("", "<", ">", ".^", "._", "<.^", ">._"):
+            widget = UrwidImage(image, fmt, upscale=False)
+            size = (w + rng.randint(0, 3), h // 2 + rng.randint(0, 2))
+            canv = widget.render(size)
+            if not canv.widget_info:
+                canv.finalize(widget, size, False)
+            W, H = canv.cols(), canv.rows()
+            full = [_cells(r)[0] for r in canv.content()]
+            if len(full) != H or any(len(r) != W for r in full):
+                return {"reproduced": True, "input": f"image {w}x{h} fmt={fmt!r} size={size}", "observed": "untrimmed canvas is not rows x cols"}
+            for tl in range(W):
+                for tt in range(H):
+                    for c in range(1, W - tl + 1):
+                        for r in range(1, H - tt + 1):
+                            done += 1
+                            if done > budget * 40:
+                                break
+                            got = [_cells(row) for row in canv.content(tl, tt, c, r)]
+                            exp = [row[tl:tl + c] for row in full[tt:tt + r]]
+                            if [g for g, _ in got] != exp or any(e != (None, None) for _, e in got):
+                                return {"reproduced": True, "input": f"image {w}x{h} pixels={px} fmt={fmt!r} size={size} content({tl},{tt},{c},{r})",
+                                        "observed": repr([g for g, _ in got])[:600], "expected": repr(exp)[:600]}
+    # graphics-based: vertical trimming selects the lines, horizontal trimming gives blanks
+    from term_image.image import KittyImage
+    KittyImage._supported = True
+    for trial in range(6):
+        w, h = rng.randint(1, 5), rng.randint(1, 4)
+        img = Image.new("RGB", (w * 4, h * 8), (10 * trial, 3, 200))
+        widget = UrwidImage(KittyImage(img), "", upscale=True)
+        size = (w + rng.randint(0, 2), h + rng.randint(0, 2))
+        canv = widget.render(size)
+        if not canv.widget_info:
+            canv.finalize(widget, size, False)
+        W, H = canv.cols(), canv.rows()
+        strip = lambda t: t.replace(b"\b ", b"")
+        full = [b"".join(strip(t) for *_, t in row) for row in canv.content()]
+        for tl in range(W):
+            for tt in range(H):
+                for c in range(1, W - tl + 1):
+                    for r in range(1, H - tt + 1):
+                        done += 1
+                        got = [b"".join(strip(t) for *_, t in row) for row in canv.content(tl, tt, c, r)]
+                        exp = full[tt:tt + r] if (tl == 0 and c == W) else [b" " * c] * r
+                        if got != exp:
+                            return {"reproduced": True, "input": f"KittyImage canvas {W}x{H} content({tl},{tt},{c},{r})", "observed": repr(got)[:500], "expected": repr(exp)[:500]}
+    return {"reproduced": False, "input": f"{done} trims of random small canvases", "observed": []}
+
+
+def rows(m, meta):
+    """flow widgets: rows((cols,)) against the canvas render((cols,)) builds, after earlier calls made under another cell ratio"""
+    import random
+    import tests  # noqa: F401
+    from PIL import Image
+    from term_image import set_cell_ratio
+    from term_image.image import BlockImage, Size
+    from term_image.widget import UrwidImage
+    rng = random.Random(3)
+    for trial in range(300):
+        img = Image.new("RGB", (rng.randint(1, 40), rng.randint(1, 40)))
+        for sizing in (Size.FIT, Size.AUTO):
+            kw = {"upscale": True} if sizing is Size.FIT else {}
+            widget = UrwidImage(BlockImage(img), **kw)
+            hist = []
+            for step in range(3):
+                ratio = rng.choice([0.3, 0.5, 1.0, 2.0])
+                set_cell_ratio(ratio)
+                cols = rng.randint(1, 60)
+                op = rng.choice(["rows", "render", "both"])
+                hist.append((ratio, cols, op))
+                if op == "rows":
+                    widget.rows((cols,))
+                elif op == "render":
+                    widget.render((cols,))
+                else:
+                    n = widget.rows((cols,))
+                    canv = widget.render((cols,))
+                    if n != canv.rows() or canv.cols() != cols:
+                        set_cell_ratio(0.5)
+                        return {"reproduced": True, "input": f"image {img.size} sizing={sizing} history (cell ratio, cols, call)={hist}",
+                                "observed": f"rows() = {n}, rendered canvas = {canv.cols()}x{canv.rows()}"}
+    set_cell_ratio(0.5)
+    return {"reproduced": False, "input": "900 random three-step histories", "observed": []}
